@@ -75,9 +75,9 @@ def _safe(packed):
     fn, job = packed
     try:
         return fn(job)
-    except tla.MachineryError:
+    except (tla.MachineryError, KeyboardInterrupt, SystemExit):
         raise
-    except Exception:  # noqa: BLE001
+    except BaseException:  # noqa: BLE001      (the library has a BaseException subclass, BaseTypeError: an escaping one would kill the pool process and hang the pool)
         import traceback
         raise tla.MachineryError("driver raised in a pool process:\n" + traceback.format_exc()[-3000:]) from None
 
